@@ -49,7 +49,7 @@ class Tr:
     def adopt_ret(self, r, step):
         """A call returned a pointer into an object the library allocated: make it a replay object
         located relative to that return value."""
-        o = self.ex.obj_at(r) if isinstance(r, int) and r >= 0x10000 else None
+        o = self.ex.obj_at(r) if isinstance(r, int) and r >= core.ADDR_BASE else None
         if o is None or o.kind != "heap" or self.owned(r):
             return
         self.objs.append((o.base, o.size, "lib"))
@@ -58,7 +58,7 @@ class Tr:
     def adopt_mem(self, where, name="lib"):
         """The pointer stored at address `where` designates a library-allocated block: adopt it."""
         v = self.ex.load(where, ir.int_t(64))
-        o = self.ex.obj_at(v) if isinstance(v, int) and v >= 0x10000 else None
+        o = self.ex.obj_at(v) if isinstance(v, int) and v >= core.ADDR_BASE else None
         if o is None or o.kind != "heap" or self.owned(v):
             return
         e = self.enc(where)
@@ -82,7 +82,7 @@ class Tr:
         nm = self.ex.addr_func.get(v)
         if nm is not None:
             return ("fn", nm)
-        if v >= 0x10000 and self.ex.obj_at(v) is not None:
+        if v >= core.ADDR_BASE and self.ex.obj_at(v) is not None:
             return ("op", v)        # pointer into an object the library allocated itself: opaque
         return ("i", v)
 
@@ -373,7 +373,7 @@ def compare(ex, tr, native_out, conc_acts, dumps_by_step, rets_by_step, tol=1e-9
                     if e[0] == "fn":
                         continue
                     # pointer into some other llsym object (library-internal allocation): cannot be compared
-                    if csz == 8 and ex.obj_at(val) is not None and val >= 0x10000:
+                    if csz == 8 and ex.obj_at(val) is not None and val >= core.ADDR_BASE:
                         continue
                     diffs.append("step %d obj %d+%d: native=%#x llsym=%#x" % (step, oi, off, gv, val))
     return (not diffs), diffs
